@@ -42,14 +42,14 @@ Proof.
   destruct (find_idx _ _) as [i|]; [|reflexivity]. destruct (nth_error _ _) as [[n r]|]; reflexivity.
 Qed.
 
-Theorem copies_detached t q : promises_copy q = true -> Forall (fun h => h = Detached) (res_handles (m_get false t q)).
+Theorem copies_detached pad t q : promises_copy q = true -> Forall (fun h => h = Detached) (res_handles (m_get false pad t q)).
 Proof.
   intros Hp. destruct q; cbn [m_get res_handles promises_copy] in *.
   - (* get_cell *) subst clone. cbn [concat app map]. constructor; [|constructor].
     unfold m_get_cell. destruct (theight t <=? _); [reflexivity|]. cbn [c_h]. apply m_row_get_cell_detached. now left.
   - subst clone. constructor; [apply m_get_row_clone|constructor].
   - (* get_cells *) apply Forall_map', Forall_concat. unfold m_get_cells.
-    destruct area as [[[[x y] z] e]|]; apply Forall_map', Forall_all; intros r; cbn [orb];
+    destruct pad, area as [[[[x y] z] e]|]; apply Forall_map', Forall_all; intros r; cbn [negb orb];
       try apply Forall_app; try split; try apply m_row_traverse_detached; try apply pad_cells_detached.
   - apply Forall_map', Forall_concat. unfold m_cells. apply Forall_map', Forall_all. intros r. apply m_row_traverse_detached.
   - apply Forall_map'. unfold m_get_rows. destruct range as [[y e]|]; apply m_traverse_detached.
@@ -68,32 +68,35 @@ Proof.
 Qed.
 
 (* Detached means: whatever is done to the returned object, the table stays what it is *)
-Theorem detached_mutation_invisible t q f : promises_copy q = true ->
-  Forall (fun h => mutate h f t = t) (res_handles (m_get false t q)).
+Theorem detached_mutation_invisible pad t q f : promises_copy q = true ->
+  Forall (fun h => mutate h f t = t) (res_handles (m_get false pad t q)).
 Proof. intros Hp. eapply Forall_impl; [|apply copies_detached; exact Hp]. intros h ->. reflexivity. Qed.
 
 (* ---- the pinned traverse hands out LIVE rows for unrepeated rows (F13) and mutating one changes the table ---- *)
 Theorem traverse_pinned_refuted_w : exists t f, WF t /\
-  exists h, In h (res_handles (m_get true t (GTraverse None None))) /\ abs_t (mutate h f t) <> abs_t t.
+  exists h, In h (res_handles (m_get true false t (GTraverse None None))) /\ abs_t (mutate h f t) <> abs_t t.
 Proof.
   exists {| cols := [(1%nat, 0)]; rows := [(1%nat, (0, [(1%nat, (5, 0))]))] |}, (MAppendCell (1%nat, (7, 0))).
   split; [apply WFb_WF; reflexivity|]. exists (LiveRow 0). split; [now left|]. vm_compute. discriminate.
 Qed.
-(* the pinned get_cells(area) returns fewer cells than the area on a row narrower than the table (F30) *)
+(* get_cells(area) AS IT IS returns fewer cells than the area on a row stored narrower than the area (F30, known finding): the
+   documented reading fails, the as-stored reading and the candidate repair hold on the same input *)
 Theorem get_cells_pinned_refuted_w : exists t q, WF t /\ Tablexmlproof.fits t = true /\
-  meets (promises_copy q) (expands q) (m_get true t q) (spec_get (abs_t t) q) = false.
+  meets (promises_copy q) (expands q) (m_get false false t q) (spec_get true (abs_t t) q) = false /\
+  meets (promises_copy q) (expands q) (m_get false false t q) (spec_get false (abs_t t) q) = true /\
+  meets (promises_copy q) (expands q) (m_get false true t q) (spec_get true (abs_t t) q) = true.
 Proof.
   exists {| cols := [(2%nat, 0)]; rows := [(1%nat, (0, [])); (1%nat, (0, [(1%nat, (5, 0))]))] |}, (GGetCells (Some (0, 0, 1, 1))).
-  split; [apply WFb_WF; reflexivity|]. split; reflexivity.
+  split; [apply WFb_WF; reflexivity|]. repeat split; reflexivity.
 Qed.
 (* the pinned get_column_cells keeps the column repetition of the cells (F32) *)
-Theorem get_column_cells_pinned_refuted_w : exists t q, WF t /\ expands q = true /\ exists n, In n (res_reps (m_get true t q)) /\ n <> 1%nat.
+Theorem get_column_cells_pinned_refuted_w : exists t q, WF t /\ expands q = true /\ exists n, In n (res_reps (m_get true false t q)) /\ n <> 1%nat.
 Proof.
   exists {| cols := [(3%nat, 0)]; rows := [(1%nat, (0, [(3%nat, (7, 0))]))] |}, (GColumnCells 1).
   split; [apply WFb_WF; reflexivity|]. split; [reflexivity|]. exists 3%nat. split; [now left|lia].
 Qed.
 (* the pinned traverse_columns(start, end) keeps the repeat of a column when start is the last position of its run (F110) *)
-Theorem traverse_columns_pinned_refuted_w : exists t q, WF t /\ expands q = true /\ exists n, In n (res_reps (m_get true t q)) /\ n <> 1%nat.
+Theorem traverse_columns_pinned_refuted_w : exists t q, WF t /\ expands q = true /\ exists n, In n (res_reps (m_get true false t q)) /\ n <> 1%nat.
 Proof.
   exists {| cols := [(3%nat, 0)]; rows := [] |}, (GTraverseColumns (Some 2) (Some 2)).
   split; [apply WFb_WF; reflexivity|]. split; [reflexivity|]. exists 3%nat. split; [now left|lia].
